@@ -1,16 +1,15 @@
-\* C20: thorough: as quick (every hook profile for the good cases), but every order of the module_depends() calls
+\* C20: model mutant on the cases of IOEnv.CASES: module_dfs() returns early, without the visited mark, for a module without module_post_init; TLC must report B_StartsComplete
 SPECIFICATION Spec
 CONSTANTS
-    Source = "enum"
-    MaxN = 3
+    Source = "file"
+    MaxN = 6
     SelfLoops = TRUE
-    DepOrders = "all"
+    DepOrders = "asc"
     WithMissing = TRUE
     WithAnti = FALSE
-    Profiles = "good"
-    Bug = "none"
+    Profiles = "full"
+    Bug = "NoPostNoMark"
 INVARIANTS
     TypeOK RdependsMirrorsDepends SetEmptyAtExit NoGhostInGoodCase
     B_CtorOnce B_DepsConstructedFirst B_PostInitOnce B_PostInitAfterDeps B_DtorBeforeDeps
     B_StartsComplete B_StopsClean B_AbortsWithError B_NeverRunsPartial
-ACTION_CONSTRAINT EmitCase
